@@ -51,6 +51,9 @@ func show(v reflect.Value) string {
 	case reflect.Struct:
 		t := v.Type()
 		name := t.Name()
+		if i := strings.Index(name, "["); i > 0 && !strings.HasPrefix(name, "Tuple") {
+			name = name[:i] // a generic user type: the type arguments are not part of the abstract value
+		}
 		if strings.HasSuffix(t.PkgPath(), "/frt") && strings.HasPrefix(name, "Tuple") {
 			parts := []string{}
 			for i := 0; i < v.NumField(); i++ {
@@ -101,9 +104,9 @@ func runProgram(id int, f func() any) {
 }
 
 // monomorphic probes for the tinyfo profile (tinyfo has no generic package_info functions with inferred type arguments)
-func ProbeI(tag string, v int) int          { return Probe(tag, v) }
-func ProbeS(tag string, v string) string    { return Probe(tag, v) }
-func ProbeB(tag string, v bool) bool        { return Probe(tag, v) }
+func ProbeI(tag string, v int) int       { return Probe(tag, v) }
+func ProbeS(tag string, v string) string { return Probe(tag, v) }
+func ProbeB(tag string, v bool) bool     { return Probe(tag, v) }
 
 // foreign functions (C03): record the arguments in the order received
 func emitCall(tag string, args ...any) {
